@@ -378,6 +378,11 @@ PROPS['C19']['outside'] = list(PROPS['C19'].get('outside', [])) + ['const_defaul
 PROPS['C01']['mir']['quick'].append(mrun(CHUNKS, nmax=3))
 PROPS['C01']['bounds'] += ' M also: chunks_from_slice(_mut) / slice_from_chunks(_mut) for all N and L (the views that rely on size_of::<GenericArray<T, N>>() == N * size_of::<T>()).'
 
+# eighth round: the reinterpreting conversions are users of the layout guarantee too (a "same byte extent" test instead of "same length" is
+# wrong exactly for zero-sized elements): C01 also runs the length-check scenarios, all N, all L, size_of::<T>() symbolic (0 included)
+PROPS['C01']['mir']['quick'].append(mrun(IFF, nmax=3))
+PROPS['C01']['bounds'] += ' M also: from_slice / try_from_slice / from_mut_slice / try_from_mut_slice / TryFrom reach the reinterpreting cast iff L == N for ALL N, L and element sizes (0 included).'
+
 # re-boxing heap sources through engine M (all N, source length and capacity symbolic)
 HEAP = ['heap.try_from_vec', 'heap.try_from_boxed_slice']
 for pid in ('C15', 'C16', 'C03'):
